@@ -8,10 +8,11 @@
 use super::*;
 include!("/verif/harness/common.rs");
 
-const ALPHABET: [u8; 9] = [b'"', b'/', b'\\', b'\n', b'a', b'(', b'[', b')', b']'];
+// '\r' is in the alphabet because only LF ends a `//` comment (seeded change C15-1 ended it at CR)
+const ALPHABET: [u8; 10] = [b'"', b'/', b'\\', b'\n', b'\r', b'a', b'(', b'[', b')', b']'];
 fn sym() -> u8 {
     let i: u8 = kani::any();
-    kani::assume(i < 9);
+    kani::assume(i < 10);
     ALPHABET[i as usize]
 }
 
